@@ -4,6 +4,7 @@ import (
 	"crypto"
 	"crypto/rsa"
 	"crypto/sha256"
+	"math/big"
 
 	"pgregory.net/rapid"
 
@@ -18,6 +19,7 @@ type MutEnv struct {
 	AltKey      *rsa.PrivateKey // a key that is not the signer's
 	NewContent  []byte          // replacement content octets
 	Foreign     []byte          // a valid signature by somebody else over other (encapsulated) content
+	SignerKey   *rsa.PrivateKey // the signer's own key, when the harness has it (nil for fixtures): for blobs only the key holder can make
 }
 
 func leaves(n *der.Node, out *[]*der.Node) {
@@ -48,7 +50,7 @@ var CMSMutationClasses = []string{
 	"content_edit", "content_replace", "content_remove", "content_add",
 	"etype_change", "outer_oid_change", "attr_contenttype_change",
 	"certs_drop", "certs_replace", "certs_add",
-	"issuer_change", "serial_change", "serial_sign_edit", "unsigned_attrs_shadow_signed", "sig_length_edit", "digest_attr_rewrite", "digest_attr_rewrite_and_content",
+	"issuer_change", "serial_change", "serial_sign_edit", "unsigned_attrs_shadow_signed", "sig_length_edit", "sig_padding_malformed", "signer_id_key_identifier", "digest_attr_rewrite", "digest_attr_rewrite_and_content",
 	"sig_flip", "sig_by_other_key", "digestalg_change", "sigalg_change", "null_params_toggle",
 	"second_signer", "outer_strip", "outer_add", "attrs_retag_set", "attrs_remove_all", "attrs_empty",
 	"foreign_content_and_signer", "foreign_content_and_signer", "issuer_string_retag",
@@ -363,6 +365,64 @@ func MutateCMS(t *rapid.T, blob []byte, env MutEnv) ([]byte, string) {
 			s.Sig.Content = append([]byte{}, c[1:]...)
 		default:
 			s.Sig.Content = append(append([]byte{}, c...), 0x00)
+		}
+	case "sig_padding_malformed":
+		// made with the signer's own key, but not a PKCS#1 v1.5 signature: the encoded message has short padding and
+		// octets left over behind the DigestInfo (the shape of Bleichenbacher's 2006 forgery), or a DigestInfo for
+		// another hash. A verifier that decodes the block by hand and stops at the digest accepts these.
+		if env.SignerKey == nil || s.Attrs == nil || s.Sig == nil {
+			return nil, na
+		}
+		v := s.Attrs.Value()
+		tbs := append(append([]byte{0x31}, der.EncodeLen(len(v))...), v...)
+		h := sha256.Sum256(tbs)
+		k := (env.SignerKey.N.BitLen() + 7) / 8
+		digestInfo := append([]byte{0x30, 0x31, 0x30, 0x0d, 0x06, 0x09, 0x60, 0x86, 0x48, 0x01, 0x65, 0x03, 0x04, 0x02, 0x01, 0x05, 0x00, 0x04, 0x20}, h[:]...)
+		var em []byte
+		switch rapid.IntRange(0, 2).Draw(t, "padkind") {
+		case 0: // 8 octets of padding, garbage behind the DigestInfo
+			em = append([]byte{0x00, 0x01, 0xff, 0xff, 0xff, 0xff, 0xff, 0xff, 0xff, 0xff, 0x00}, digestInfo...)
+			for len(em) < k {
+				em = append(em, 0xa5)
+			}
+		case 1: // block type 2 style (non-0xff padding octets)
+			em = []byte{0x00, 0x01}
+			for len(em) < k-len(digestInfo)-1 {
+				em = append(em, 0xfe)
+			}
+			em = append(append(em, 0x00), digestInfo...)
+		default: // full padding, DigestInfo without the NULL parameters and one octet of garbage to make up the length
+			di := append([]byte{0x30, 0x2f, 0x30, 0x0b, 0x06, 0x09, 0x60, 0x86, 0x48, 0x01, 0x65, 0x03, 0x04, 0x02, 0x01, 0x04, 0x20}, h[:]...)
+			em = []byte{0x00, 0x01}
+			for len(em) < k-len(di)-3 {
+				em = append(em, 0xff)
+			}
+			em = append(append(append(em, 0x00), di...), 0x00, 0x00)
+		}
+		if len(em) != k {
+			return nil, na
+		}
+		m := new(big.Int).SetBytes(em)
+		c := new(big.Int).Exp(m, env.SignerKey.D, env.SignerKey.N)
+		s.Sig.Content = c.FillBytes(make([]byte, k))
+	case "signer_id_key_identifier":
+		// CMS allows naming the signer by subjectKeyIdentifier: [0] IMPLICIT OCTET STRING in place of issuerAndSerialNumber
+		if s.IAS == nil {
+			return nil, na
+		}
+		var ski []byte
+		switch rapid.IntRange(0, 2).Draw(t, "ski") {
+		case 0:
+			ski = []byte{}
+		case 1:
+			ski = FillBytes(t, 20)
+		default:
+			ski = FillBytes(t, rapid.IntRange(1, 40).Draw(t, "skilen"))
+		}
+		for i, c := range s.Node.Children {
+			if c == s.IAS {
+				s.Node.Children[i] = &der.Node{Class: der.ClassContext, Tag: 0, Content: ski}
+			}
 		}
 	case "sig_flip":
 		if s.Sig == nil || len(s.Sig.Content) == 0 {
